@@ -15,8 +15,11 @@ func vRunCase8(t *testing.T, c vCase) (msg string) {
 	switch c.Kind {
 	case "schedule":
 		ks := strings.Split(c.A, ",")
-		g := vMulPt(big.NewInt(7), vG())
-		for _, scale := range []int64{3, 1} { // a projective and an affine (Z = 1) representation of the point
+		g7 := vMulPt(big.NewInt(7), vG())
+		// a projective and an affine (Z = 1) representation of a point, and the generator exactly as Base() returns it
+		mk := []func() *Element{func() *Element { return vElementOf(g7, big.NewInt(3)) }, func() *Element { return vElementOf(g7, big.NewInt(1)) },
+			func() *Element { return Base() }, func() *Element { return vElementOf(vG(), big.NewInt(5)) }}
+		for pi, newEl := range mk {
 			var ref []string
 			refK := ""
 			for _, kh := range ks {
@@ -24,26 +27,30 @@ func vRunCase8(t *testing.T, c vCase) (msg string) {
 				if k.Cmp(big.NewInt(1)) == 0 {
 					continue
 				}
-				e := vElementOf(g, big.NewInt(scale))
-				s := vScalarOf(t, k)
-				field.VTrace = field.VTrace[:0]
-				field.VTraceOn = true
-				e.Multiply(s)
-				field.VTraceOn = false
-				got := append([]string(nil), field.VTrace...)
-				if ref == nil {
-					ref, refK = got, kh
-					if len(ref) == 0 {
-						return "instrumentation recorded nothing"
+				// every scalar twice in a row: the schedule must not depend on what an earlier call did either
+				for rep := 0; rep < 2; rep++ {
+					e := newEl()
+					s := vScalarOf(t, k)
+					field.VTrace = field.VTrace[:0]
+					field.VTraceOn = true
+					e.Multiply(s)
+					field.VTraceOn = false
+					got := append([]string(nil), field.VTrace...)
+					if ref == nil {
+						ref, refK = got, kh
+						if len(ref) == 0 {
+							return "instrumentation recorded nothing"
+						}
+						continue
 					}
-					continue
-				}
-				if len(got) != len(ref) {
-					return "Multiply executes " + itoa(len(got)) + " field-level operations for k=" + kh + " but " + itoa(len(ref)) + " for k=" + refK
-				}
-				for i := range got {
-					if got[i] != ref[i] {
-						return "field-operation sequences for k=" + kh + " and k=" + refK + " differ at step " + itoa(i) + ": " + got[i] + " vs " + ref[i]
+					what := "k=" + kh + " (point " + itoa(pi) + ", call " + itoa(rep+1) + " with this scalar)"
+					if len(got) != len(ref) {
+						return "Multiply executes " + itoa(len(got)) + " field-level operations for " + what + " but " + itoa(len(ref)) + " for k=" + refK
+					}
+					for i := range got {
+						if got[i] != ref[i] {
+							return "field-operation sequences for " + what + " and k=" + refK + " differ at step " + itoa(i) + ": " + got[i] + " vs " + ref[i]
+						}
 					}
 				}
 			}
